@@ -11,7 +11,10 @@
 (* entries (selector, layer).  A layer is a partial map  field path ->     *)
 (* value ; "the layer sets the field" = the path is in its domain.  Values *)
 (* are opaque tokens (the empty section "{}" is a parsed section whose     *)
-(* layers set nothing).                                                    *)
+(* layers set nothing).  A field path is a leaf of the section's JSON      *)
+(* document: scalars, quantities and LISTS are leaves (a list is set and   *)
+(* delivered as a whole); JSON objects (structs, string-keyed maps) are    *)
+(* interior and merge key by key.                                          *)
 (*                                                                         *)
 (*   env.labels     node -> (label -> value)                               *)
 (*   env.dflt       section -> (path -> value)      the built-in defaults  *)
